@@ -274,7 +274,9 @@ def run_shard(args):
         p = common.run([k10, path], env=common.lib_env(), timeout=900)
         out = p.stdout
         if p.returncode != 0:
-            crashed = "harness exit code %d: %s" % (p.returncode, p.stderr[-300:])
+            cl = [l for l in out.splitlines() if l.startswith("CRASH ")]
+            crashed = ("fault inside the library (access outside a caller buffer: every segment ends at an inaccessible page): "
+                       + cl[0] if cl else "harness exit code %d: %s" % (p.returncode, p.stderr[-300:]))
     except Exception as ex:
         out = getattr(ex, "stdout", None) or ""
         if isinstance(out, bytes):
